@@ -193,6 +193,20 @@ func newWorld(c cfg, dirs *hostDirs, loneSlot int) *world {
 		}
 		w.rts = append(w.rts, rt)
 		w.code = append(w.code, cm)
+		if w.cacheDir != "" && c.Engine == "compiler" && r == 0 {
+			// sanity of the harness: the first runtime must have populated the directory, otherwise the second
+			// one would not exercise the load-from-directory path.
+			n := 0
+			filepath.WalkDir(w.cacheDir, func(_ string, d os.DirEntry, _ error) error {
+				if d != nil && !d.IsDir() {
+					n++
+				}
+				return nil
+			})
+			if n == 0 {
+				fw.Fatalf("directory-backed cache %s is empty after compilation", w.cacheDir)
+			}
+		}
 	}
 	for j := range w.stdout {
 		w.stdout[j] = &bytes.Buffer{}
